@@ -1,0 +1,29 @@
+//go:build verif
+
+package virtual
+
+// VerifLockProbeLeaf reports whether the lock of a file created by
+// NewPoolBackedFileAllocator() can currently be acquired exclusively.
+// Handle allocating decorators are unwrapped first. The lock is
+// released again immediately. The second return value is false if the
+// leaf is not backed by a pool-backed file, in which case it is
+// reported as free. This hook is only used by external verification
+// tooling (property C14) and never decides anything.
+func VerifLockProbeLeaf(leaf Leaf) (lockFree, isPoolBacked bool) {
+	for {
+		switch l := leaf.(type) {
+		case *nfsStatefulLinkableLeaf:
+			leaf = l.LinkableLeaf
+		case *nfsStatelessLinkableLeaf:
+			leaf = l.LinkableLeaf
+		case *fileBackedFile:
+			if !l.lock.TryLock() {
+				return false, true
+			}
+			l.lock.Unlock()
+			return true, true
+		default:
+			return true, false
+		}
+	}
+}
